@@ -6,7 +6,7 @@ cd /verif
 one() {
   kind=$1; name=$2; patch=$3; prop=$4
   tmp=$(mktemp -d /tmp/regcopy.XXXX)
-  rsync -a --exclude .git /repo/ $tmp/ && patch -p1 -s --no-backup-if-mismatch -d $tmp -i $patch >/dev/null 2>&1 || { echo "$kind $name $prop NOAPPLY"; rm -rf $tmp; return; }
+  (git -C /repo archive HEAD | tar -x -C $tmp) && patch -p1 -s --no-backup-if-mismatch -d $tmp -i $patch >/dev/null 2>&1 || { echo "$kind $name $prop NOAPPLY"; rm -rf $tmp; return; }
   out=$(./bin/govc check --no-evidence --repo $tmp $prop 2>&1); rc=$?
   rm -rf $tmp
   first=$(echo "$out" | grep '^VIOLATION' | head -1 | sed 's/.*obligation=//' | cut -c1-120)
@@ -19,5 +19,5 @@ for p in selftest/mutants/*.patch; do n=$(basename $p .patch); echo "canary $n /
 for p in benign/ben-*.diff; do n=$(basename $p .diff); echo "benign $n /verif/$p $(echo $n | cut -d- -f2)"; done
 } | xargs -P $J -L 1 bash -c 'one "$0" "$1" "$2" "$3"' > /tmp/regress.out 2>&1
 echo "seeds/canaries not caught:"; grep -E '^(seed|canary) ' /tmp/regress.out | grep -v 'rc=1' 
-echo "benign alarms:"; grep '^benign ' /tmp/regress.out | grep -v 'rc=0'
+echo "benign alarms (other than benign/KNOWN_LIMITS.txt):"; grep '^benign ' /tmp/regress.out | grep -v 'rc=0' | grep -v -F -f <(grep -v '^#' /verif/benign/KNOWN_LIMITS.txt | sed 's/$/ /')
 echo "done: $(wc -l < /tmp/regress.out) runs"
